@@ -96,6 +96,108 @@ Proof.
   destruct (f k v) eqn:Ef; destruct (g k v) eqn:Eg; simpl; rewrite ?Ef, ?Eg, IH; reflexivity.
 Qed.
 
+(* relative order of two live keys never changes: [before a b s] says that b is iterated
+   somewhere after a.  Set of ANY key, Update of any key and Delete of a third key keep it. *)
+Fixpoint after (a : key) (s : smap) : smap :=
+  match s with
+  | [] => []
+  | (k, _) :: r => if Nat.eqb a k then r else after a r
+  end.
+Definition before (a b : key) (s : smap) : Prop := s_has (after a s) b = true.
+
+Lemma s_has_set_mono (s : smap) k v b : s_has s b = true -> s_has (s_set s k v) b = true.
+Proof.
+  unfold s_has. destruct (Nat.eq_dec k b) as [->|Hne].
+  - intros _. rewrite s_get_set_same. reflexivity.
+  - rewrite s_get_set_other by exact Hne. auto.
+Qed.
+
+Lemma s_get_update (s : smap) k f b :
+  s_get (s_update s k f) b = if Nat.eqb k b then option_map f (s_get s b) else s_get s b.
+Proof.
+  induction s as [|[k' v'] r IH]; simpl; [destruct (Nat.eqb k b); reflexivity|].
+  destruct (Nat.eqb_spec k k') as [->|Hk]; simpl.
+  - destruct (Nat.eqb_spec b k') as [->|Hb].
+    + rewrite Nat.eqb_refl. reflexivity.
+    + destruct (Nat.eqb_spec k' b); [congruence|reflexivity].
+  - destruct (Nat.eqb_spec b k') as [->|Hb]; [|exact IH].
+    destruct (Nat.eqb_spec k k'); [congruence|reflexivity].
+Qed.
+
+Lemma s_has_update (s : smap) k f b : s_has (s_update s k f) b = s_has s b.
+Proof.
+  unfold s_has. rewrite s_get_update. destruct (Nat.eqb k b); [|reflexivity].
+  destruct (s_get s b); reflexivity.
+Qed.
+
+Lemma s_get_delete_other (s : smap) k b : k <> b -> s_get (s_delete s k) b = s_get s b.
+Proof.
+  intros Hne. induction s as [|[k' v'] r IH]; simpl; [reflexivity|].
+  destruct (Nat.eqb_spec k k') as [->|Hk]; simpl.
+  - destruct (Nat.eqb_spec b k'); [congruence|exact IH].
+  - destruct (Nat.eqb b k'); [reflexivity|exact IH].
+Qed.
+
+Lemma before_set (s : smap) a b k v : before a b s -> before a b (s_set s k v).
+Proof.
+  unfold before. induction s as [|[k' v'] r IH]; simpl; [discriminate|].
+  destruct (Nat.eqb k k') eqn:Ek; simpl; destruct (Nat.eqb a k') eqn:Ea; auto.
+  apply s_has_set_mono.
+Qed.
+
+Lemma before_update (s : smap) a b k f : before a b s -> before a b (s_update s k f).
+Proof.
+  unfold before. induction s as [|[k' v'] r IH]; simpl; [discriminate|].
+  destruct (Nat.eqb k k') eqn:Ek; simpl; destruct (Nat.eqb a k') eqn:Ea; auto.
+  rewrite s_has_update. auto.
+Qed.
+
+Lemma after_delete (s : smap) a k : k <> a -> after a (s_delete s k) = s_delete (after a s) k.
+Proof.
+  intros Hne. induction s as [|[k' v'] r IH]; simpl; [reflexivity|].
+  destruct (Nat.eqb_spec k k') as [->|Hk]; simpl.
+  - destruct (Nat.eqb_spec a k'); [congruence|exact IH].
+  - destruct (Nat.eqb a k'); [reflexivity|exact IH].
+Qed.
+
+Lemma before_delete (s : smap) a b k : k <> a -> k <> b -> before a b s -> before a b (s_delete s k).
+Proof.
+  unfold before. intros Ha Hb H. rewrite after_delete by exact Ha.
+  unfold s_has in *. rewrite s_get_delete_other by exact Hb. exact H.
+Qed.
+
+(* Filter: if both keys survive the predicate, their relative order survives too *)
+Lemma after_filter (s : smap) a va f : s_get s a = Some va -> f a va = true ->
+  after a (s_filter s f) = s_filter (after a s) f.
+Proof.
+  unfold s_filter. induction s as [|[k' v'] r IH]; simpl; [discriminate|].
+  destruct (Nat.eqb_spec a k') as [->|Hne].
+  - intros Hg Hf. inversion Hg; subst. rewrite Hf. simpl. rewrite Nat.eqb_refl. reflexivity.
+  - intros Hg Hf. destruct (f k' v'); simpl.
+    + destruct (Nat.eqb_spec a k'); [congruence|]. apply IH; assumption.
+    + apply IH; assumption.
+Qed.
+
+Lemma s_get_filter_keep (s : smap) b vb f : s_get s b = Some vb -> f b vb = true ->
+  s_get (s_filter s f) b = Some vb.
+Proof.
+  unfold s_filter. induction s as [|[k' v'] r IH]; simpl; [discriminate|].
+  destruct (Nat.eqb_spec b k') as [->|Hne].
+  - intros Hg Hf. inversion Hg; subst. rewrite Hf. simpl. rewrite Nat.eqb_refl. reflexivity.
+  - intros Hg Hf. destruct (f k' v'); simpl.
+    + destruct (Nat.eqb_spec b k'); [congruence|]. apply IH; assumption.
+    + apply IH; assumption.
+Qed.
+
+Lemma before_filter (s : smap) a b va vb f :
+  s_get s a = Some va -> f a va = true ->
+  s_get (after a s) b = Some vb -> f b vb = true ->
+  before a b (s_filter s f).
+Proof.
+  intros Ha Hfa Hb Hfb. unfold before. rewrite (after_filter s a va f Ha Hfa).
+  unfold s_has. rewrite (s_get_filter_keep _ b vb f Hb Hfb). reflexivity.
+Qed.
+
 (* ---------- the same laws for the model of the Go type ---------- *)
 Notation abs := (abs zero).
 Implicit Types m : @omap V.
@@ -158,6 +260,26 @@ Theorem m_map_keeps_keys m f (m1 : @omap V) tr ok : Inv m -> m_map zero m f = (m
 Proof.
   intros HI Hm. destruct (map_ok zero m f m1 tr ok HI Hm) as [_ Hs].
   pose proof (s_map_keys (abs m) f) as Hk. rewrite Hs in Hk. exact Hk.
+Qed.
+
+Theorem m_order_stable_set m a b k v : Inv m -> before a b (abs m) -> before a b (abs (m_set m k v)).
+Proof. intros HI H. destruct (set_ok zero m k v HI) as [_ <-]. apply before_set; exact H. Qed.
+
+Theorem m_order_stable_update m a b k f : Inv m -> before a b (abs m) ->
+  before a b (abs (m_update zero m k f)).
+Proof. intros HI H. destruct (update_ok zero m k f HI) as [_ <-]. apply before_update; exact H. Qed.
+
+Theorem m_order_stable_delete m a b k : Inv m -> k <> a -> k <> b -> before a b (abs m) ->
+  before a b (abs (m_delete m k)).
+Proof. intros HI Ha Hb H. destruct (delete_ok zero m k HI) as [_ <-]. apply before_delete; assumption. Qed.
+
+Theorem m_order_stable_filter m f (m1 : @omap V) tr a b va vb : Inv m -> m_filter zero m f = (m1, tr) ->
+  s_get (abs m) a = Some va -> f a va = true ->
+  s_get (after a (abs m)) b = Some vb -> f b vb = true ->
+  before a b (abs m1).
+Proof.
+  intros HI Hf Ha Hfa Hb Hfb. destruct (filter_ok zero m f m1 tr HI Hf) as (_ & _ & <-).
+  apply (before_filter _ a b va vb); assumption.
 Qed.
 
 End Laws.
